@@ -10,7 +10,7 @@ from vlib.core import Ctx, sha
 
 KINDS = ["segv", "abrt", "kill", "exit1", "exit3"]
 OPTS = ["--inline-suppr", "--enable=style", "--error-exitcode=7"]
-LETTERS = ["E", "E2", "SI"]
+LETTERS = ["E", "E2", "E3"]     # every file has findings; the last one several (several messages after the first)
 
 
 def findings(res):
@@ -37,10 +37,12 @@ def judge(ctx, sc, jobs, plan, x, base, crashed_files):
     for cf in crashed_files:
         if not any(f["severity"] == "error" and f["id"] in ("cppcheckError", "internalError") and file_of(f) == cf for f in fs):
             bad.append("no internal error names crashed file %s" % cf)
-    others = sorted(vrun.fkey(f) for f in fs if file_of(f) not in crashed_files and f["id"] not in ("cppcheckError", "internalError"))
+    # every finding attributed to a non-crashed file counts, including internal errors (a spurious "child crashed" for a healthy worker)
+    others = sorted(vrun.fkey(f) for f in fs if file_of(f) not in crashed_files)
     exp = sorted(vrun.fkey(f) for f in base if file_of(f) not in crashed_files)
     if others != exp:
-        bad.append("findings of other files differ: expected %d got %d" % (len(exp), len(others)))
+        extra = [k[0] + "@" + str(k[5][0][0] if k[5] else "") for k in others if k not in exp]
+        bad.append("findings of other files differ: expected %d got %d (extra: %s)" % (len(exp), len(others), extra[:3]))
     if x.res.rc != 7:
         bad.append("exit status %s instead of 7" % x.res.rc)
     return bad
@@ -70,7 +72,7 @@ def main(tier, replay=None):
     if tier == "thorough":
         combos = [(LETTERS, 2, 0, ALLK, True), (LETTERS, 2, 1, ALLK, True), (["OK", "OK2", "OK3"], 2, 0, ALLK, True),
                   (LETTERS, 3, 0, ALLK, True), (LETTERS, 3, 1, ALLK, False), (["OK", "OK2", "OK3"], 2, 1, ALLK, False),
-                  (["E", "H1", "H2", "SI"], 2, 0, ["segv", "exit1"], True), (["E", "H1", "H2", "SI"], 2, 1, ["segv", "exit1"], False)]
+                  (["E", "SI", "E2", "E3"], 2, 0, ["segv", "exit1"], True), (["E", "SI", "E2", "E3"], 2, 1, ["segv", "exit1"], False)]
     for letters, jobs, policy, kinds, multi in combos:
         sc = par.Scenario(letters, OPTS).setup()
         clean = letters[0] == "OK"
